@@ -211,6 +211,7 @@ def run(chk):
     rexe = vlib.build_model_driver('Rule')
     rdir = os.path.join(vlib.BUILD, 'fuzzfonts', 'c02r-%s-%d' % (chk.tier, chk.seed))
     rbase, rgl, rinv, radv = c06.prepare(chk, w, rdir)
+    rbase = K.enrich(rbase)
     rcases, rmcases, rtexts = [], [], []
     for k in range(500 if thorough else 60):
         prog, nsub = (c06.gen_growth_program(rng, rgl) if rng.random() < 0.3 else c06.gen_program(rng, rgl))
@@ -226,7 +227,8 @@ def run(chk):
             n = rng.choice((1, 2, 3, 5, 8, 12))
             gids = [rng.choice(alpha) if rng.random() < 0.85 else rng.choice(rgl) for _ in range(n)]
             cid = 'rt%d.%d' % (k, t)
-            rcases.append(S.case_line(cid, fp, [rinv[g] for g in gids], 32, ops=('dump', 'ltrace')))
+            fvs = prog[0].get('feats')
+            rcases.append(S.case_line(cid, fp, [rinv[g] for g in gids], 32, feats=(','.join('%x=%x' % (f, v) for f, v in sorted(fvs.items())) if fvs else '-'), ops=('dump', 'ltrace')))
             rmcases.append('%s gdlL %d %s %s %s' % (cid, nsub, text, radv, ','.join(map(str, gids))))
             rtexts.append(text)
     _, ril, _ = vlib.run_pair(None, w, rcases, timeout=2400)
